@@ -371,7 +371,10 @@ func init() {
 
 // ---- parent side
 
+var c12lastStderr string
+
 func c12spawn(cas c12case, scratch string) (stdout string, exit int, record string, err error) {
+	c12lastStderr = ""
 	bin := os.Getenv("VERIF_BIN")
 	if bin == "" {
 		bin, _ = os.Executable()
@@ -415,6 +418,7 @@ func c12spawn(cas c12case, scratch string) (stdout string, exit int, record stri
 		return "", 0, "", fmt.Errorf("child timed out")
 	}
 	rb, _ := os.ReadFile(recFile)
+	c12lastStderr = se.String()
 	return so.String(), exit, string(rb), nil
 }
 
@@ -429,6 +433,10 @@ func c12eval(cas c12case, scratch string) (*Violation, string) {
 	mk := func(clause, detail string) *Violation {
 		sig := fmt.Sprintf("C12|%s|entry=%s|severity=%s|noint=%v|always=%v|testmode=%v|level=%s|%s|args=%d|extra=%s|flags-via=%s|repeat=%d|level-via=%s", clause, cas.Entry, levelName(slog.Level(cas.Sev)), cas.NoInt, cas.IntAlw, cas.TestMode, levelName(slog.Level(cas.Level)), cas.Format, cas.NArgs, cas.Extra, cas.FlagPath, cas.Repeat, cas.LevelVia)
 		return mkViolation(sig, clause, detail+fmt.Sprintf(" [child stdout %.200q, exit status %d, record file %.200q]", stdout, exit, record), cas)
+	}
+	// every logger of the child has writers of its own: the process's own stderr / stdout are no destination of its records
+	if strings.Contains(c12lastStderr, c12msg) || strings.Contains(c12lastStderr, "batch ") {
+		return mk("only-selected-destinations", fmt.Sprintf("the process's own stderr received a record although every logger of the process has writers of its own: %.300q", c12lastStderr)), ""
 	}
 	L := slog.Level(cas.Level)
 	if cas.Batch {
